@@ -668,6 +668,13 @@ class NPProxy:
     def asarray(self, x, *a, **k):
         return self.array(x, *a, **k)
 
+    def ascontiguousarray(self, x, dtype=None, **k):
+        if not symbolic(x):
+            return _np.ascontiguousarray(x, dtype=dtype, **k)
+        if dtype is not None and dtype not in (float, _np.float64, 'float64', object) and not (isinstance(dtype, type) and issubclass(dtype, _np.floating)):
+            raise Unsupported('ascontiguousarray(dtype=%r) on symbolic values' % (dtype,))
+        return _np.ascontiguousarray(_np.asarray(x, dtype=object)).view(SA)          # a conversion to a float type is the identity on reals
+
     def ones_like(self, x, *a, **k):
         if symbolic(x):
             out = _np.empty(_np.shape(x), dtype=object); out.flat = [SymReal.lift(1.0) for _ in range(out.size)]
